@@ -272,6 +272,15 @@ def _test_nodes(fn):
     for n in ast.walk(fn):
         if isinstance(n, (ast.If, ast.While, ast.IfExp)):
             yield n.test
+        elif isinstance(n, ast.Return) and n.value is not None:
+            # a boolean expression returned by a predicate helper is a test of its caller
+            v = n.value
+            if isinstance(v, ast.Call) and isinstance(v.func, ast.Name) and v.func.id == "bool" and len(v.args) == 1:
+                v = v.args[0]
+            if isinstance(v, (ast.BoolOp, ast.Compare)) or (isinstance(v, ast.UnaryOp) and isinstance(v.op, ast.Not)):
+                yield v
+        elif isinstance(n, ast.Assign) and isinstance(n.value, (ast.BoolOp,)):
+            yield n.value
 
 
 def _atoms(test):
